@@ -288,7 +288,7 @@ type World struct {
 	lisS             *MemListener
 	deniedMu         sync.Mutex
 	denied           map[string]bool // the operator's block list (Veto changes it at run time)
-	lisS2            *MemListener // second stream listener (client sx)
+	lisS2            *MemListener    // second stream listener (client sx)
 	streamMu         sync.Mutex
 	// real mode (Meta.Extra["real"] = "yes", real-time drivers only): the IPv4 datagram listener and its clients
 	// c1..c3 are kernel UDP sockets on the loopback interface, so that code paths that specialise on
